@@ -384,6 +384,18 @@ func init() {
 			st.assume(a[0].(*Term))
 			ret(st, f, nil)
 		},
+		// vBound(c, label): a capacity bound of the harness (model sizes). Pruning a
+		// path here is counted per label and reported, so that an unintended cut of
+		// the explored space is visible.
+		"vBound": func(st *State, f *Frame, c *ssa.Call, a []Value) {
+			t := a[0].(*Term)
+			label := string(a[1].(Str))
+			if t.Op == OConst && t.K == 0 {
+				st.run.notePrune(label)
+			}
+			st.assume(t)
+			ret(st, f, nil)
+		},
 		"vAssert": func(st *State, f *Frame, c *ssa.Call, a []Value) {
 			st.assertProp(a[0].(*Term), string(a[1].(Str)))
 			ret(st, f, nil)
@@ -435,6 +447,9 @@ func init() {
 		"vTier": func(st *State, f *Frame, c *ssa.Call, a []Value) { ret(st, f, C(64, uint64(TierN))) },
 		"vGCCheck": func(st *State, f *Frame, c *ssa.Call, a []Value) { st.gcCheck = true; ret(st, f, nil) },
 		"vTrack":   func(st *State, f *Frame, c *ssa.Call, a []Value) { ret(st, f, nil) },
+		"vHeapString": func(st *State, f *Frame, c *ssa.Call, a []Value) {
+			ret(st, f, Str(fmt.Sprintf("heap-string-%d", st.concretize(a[0].(*Term)))))
+		},
 		"vCollected": func(st *State, f *Frame, c *ssa.Call, a []Value) { ret(st, f, B(false)) },
 		"vEngine": func(st *State, f *Frame, c *ssa.Call, a []Value) { ret(st, f, B(true)) },
 		"vFootprintStart": func(st *State, f *Frame, c *ssa.Call, a []Value) {
@@ -537,6 +552,11 @@ func init() {
 			abort()
 		}
 		other := st.reach([]int{p.Blk})
+		var globals []int
+		for _, g := range st.run.P.globals {
+			globals = append(globals, g)
+		}
+		shared := st.reach(globals) // everything hanging off package-level variables is shared by all worlds
 		ok := true
 		detail := ""
 		for b := range st.fp.Writes {
@@ -547,6 +567,9 @@ func init() {
 			if blk.Kind == BGlobal {
 				ok = false
 				detail = "write to package-level variable " + blk.Name
+			} else if shared[b] {
+				ok = false
+				detail = "write to memory reachable from a package-level variable: " + blk.Name
 			}
 			if other[b] {
 				ok = false
